@@ -1609,7 +1609,9 @@ def r156(pe, rep):
     rep.rule('R15.6', 'string literals, block-scope static objects and static compound literals are created by new_anon_gvar: a fresh assembler-local name (.L..n) per object, is_static, '
              'is_definition, on `globals` (not `locals`); the block-scope identifier is bound to that object; _Thread_local and the initialiser are honoured: the flag state the parser '
              'builds is one emit_data places in the section the declaration demands (never a common symbol for a thread-local or initialised object) under -fcommon and -fno-common; '
-             'gvar_initializer installs init_data and leaves the flags alone; every writer of is_tentative is evaluated by a rule', floor=28)
+             'gvar_initializer installs init_data and leaves the flags alone; every writer of is_tentative is evaluated by a rule; the compound-literal decision is evaluated in the '
+             'parser context (file-scope flags) gvar_initializer really establishes for the parse of an initialiser, that context holds for the whole initialiser -- a nested activation '
+             '(compound literal inside the initialiser) returns with the context it was entered with -- and is gone after the outermost one', floor=34)
     u = pe.u
     _need(u, PU, 'new_gvar', 'new_anon_gvar', 'new_string_literal', 'declaration')
     ag = Agg(rep, 'R15.6', PU, 'new_anon_gvar')
@@ -1725,18 +1727,28 @@ def r156(pe, rep):
     if n == 0:
         raise AnalysisBroken('declaration(): static-local arm not reached')
     ag.flush(fline)
-    for fns, f in ((('postfix', 'gvar_initializer'), r156_compound_literal), (('gvar_initializer',), r156_gvar_initializer), ((), r156_flag_writers)):
+    sc = {}
+
+    def static_context(pe, rep, keep):
+        sc['states'] = r156_static_context(pe, rep, keep)
+    for fns, f, tag in ((('gvar_initializer', 'postfix'), static_context, 'gvar_initializer:static-context'),
+                        (('postfix', 'gvar_initializer'), lambda pe_, rep_, keep_: r156_compound_literal(pe_, rep_, keep_, sc.get('states')), 'postfix'),
+                        (('gvar_initializer',), r156_gvar_initializer, 'gvar_initializer'), ((), r156_flag_writers, 'is_tentative-writers')):
         try:
             _need(u, PU, *fns)
             f(pe, rep, keep)
         except AnalysisBroken as e:
-            rep.undecided('R15.6', '%s:%s:analysis' % (PU, fns[0] if fns else 'is_tentative-writers'), 'part of the rule could not be evaluated: %s' % e)
+            rep.undecided('R15.6', '%s:%s:analysis' % (PU, tag), 'part of the rule could not be evaluated: %s' % e)
 
 
-def r156_compound_literal(pe, rep, keep):
+def r156_compound_literal(pe, rep, keep, states=None):
     """postfix(): `(T){...}` at file scope or inside the initialiser of a static object is an anonymous static object like a string literal;
-    inside a function body it is an automatic object"""
+    inside a function body it is an automatic object.  `states` (r156_static_context): the values the parser's context flags have at program start
+    and while gvar_initializer has the initialiser of a static object parsed -- the flag postfix() reads is not known by name"""
     u = pe.u
+    if states is None:
+        states = {'initial': {}, 'regions': [], 'skip-static-initialiser': True}
+    s0 = states['initial']
     ag = Agg(rep, 'R15.6', PU, 'postfix')
     fline = u.fn('postfix').line
 
@@ -1765,16 +1777,20 @@ def r156_compound_literal(pe, rep, keep):
         return n_
     it = pe.interp(('postfix',) + tuple(keep), opaque=('primary', 'funcall', 'new_lvar', 'lvar_initializer', 'new_binary', 'new_unary', 'struct_ref', 'new_inc_dec'),
                    cut={'equal': h_equal, 'is_typename': lambda it_, ctx, nd, args: 1, 'typename': h_typename, 'skip': h_skip, 'gvar_initializer': h_init, 'new_var_node': h_varnode},
-                   globals_={'globals': lambda ctx: ctx.c15_g0, 'locals': lambda ctx: ctx.c15_l0, 'scope': lambda ctx: ctx.c15_scope, 'in_gvar_initializer': lambda ctx: ctx.c15_ingv})
+                   globals_=dict({'globals': lambda ctx: ctx.c15_g0, 'locals': lambda ctx: ctx.c15_l0, 'scope': lambda ctx: ctx.c15_scope},
+                                 **{v: (lambda ctx, v=v: ctx.c15_state[v]) for v in s0}))
     n = 0
-    for where in ('file-scope', 'static-initialiser', 'function-body'):
-        def mk(ctx, where=where):
+    # a literal nested in the initialiser of a file-scope object is parsed at file scope *and* in the context of a static initialiser
+    cases = ([('file-scope', s0)] + [('file-scope-initialiser', st) for w, st in states['regions'] if w == 'static-initialiser' and st != s0] +
+             [(w, st) for w, st in states['regions']] + [('function-body', s0)])
+    for where, state in cases:
+        def mk(ctx, where=where, state=state):
             ctx.c15_g0 = Obj('Obj', lazy=True, label='earlier-globals')
             ctx.c15_l0 = Obj('Obj', lazy=True, label='earlier-locals')
             sc = Obj('Scope', lazy=True, label='scope')
-            sc.fields['next'] = 0 if where == 'file-scope' else Obj('Scope', lazy=True, label='outer-scope')
+            sc.fields['next'] = 0 if where.startswith('file-scope') else Obj('Scope', lazy=True, label='outer-scope')
             ctx.c15_scope = sc
-            ctx.c15_ingv = int(where == 'static-initialiser')
+            ctx.c15_state = dict(s0, **state)
             ctx.c15_tok = Obj('Token', lazy=True, label='tok')
             return [Sym('rest', 'Token **'), ctx.c15_tok]
         res = _explore(it, 'postfix', mk)
@@ -1788,6 +1804,8 @@ def r156_compound_literal(pe, rep, keep):
             g = _final(it, ctx.globals.get('globals', ctx.c15_g0))
             inits = [e for e in ctx.events if e[0] == 'init']
             facts = {'compound literal': where, 'path': ctx.trail[-4:]}
+            if s0:
+                facts['parser context'] = dict(s0, **state)
             if where == 'function-body':
                 ag.note(key + '/automatic-object', g is ctx.c15_g0 and not inits,
                         'a compound literal in a function body is put on `globals` / initialised at translation time: it has automatic storage (C11 6.5.2.5p5), '
@@ -1795,7 +1813,10 @@ def r156_compound_literal(pe, rep, keep):
                 continue
             isobj = isinstance(g, Obj) and g is not ctx.c15_g0 and not g.lazy
             ag.note(key + '/is-anonymous-global', isobj and _final(it, ctx.globals.get('locals', ctx.c15_l0)) is ctx.c15_l0,
-                    'a compound literal with static storage duration (%s) is not created as a new object on `globals`' % where, fline, facts)
+                    'a compound literal with static storage duration (%s) is not created as a new object on `globals`%s' % (where, '' if where.startswith('file-scope') else
+                    ': with the parser context gvar_initializer() establishes while it has the initialiser of a block-scope static object parsed (%s; %s) postfix() makes the literal '
+                    'an automatic object of the enclosing function -- the static object is initialised with the address of a stack slot that has no symbol (C11 6.5.2.5p5)'
+                    % (_state_doc(dict(s0, **state)), 'outermost initialiser' if where == 'static-initialiser' else 'initialiser of a compound literal nested in it')), fline, facts)
             if not isobj:
                 continue
             F = lambda f: _final(it, g.fields.get(f, 0))
@@ -1817,6 +1838,172 @@ def r156_compound_literal(pe, rep, keep):
     if n == 0:
         raise AnalysisBroken('postfix(): compound-literal arm not reached')
     ag.flush(fline)
+
+
+_INT_TYPES = ('bool', '_Bool', 'char', 'signed char', 'unsigned char', 'short', 'unsigned short', 'int', 'unsigned int', 'long', 'unsigned long',
+              'long long', 'unsigned long long')
+MAX_CONTEXT_LEVELS = 3
+
+
+def _state_doc(st):
+    return ', '.join('%s=%r' % kv for kv in sorted(st.items())) or 'no context flag'
+
+
+def _lvalue_of_write(nd):
+    """the object a node stores to (assignment, compound assignment, ++/--) or whose address it takes, else None"""
+    if nd.kind in ('BinaryOperator', 'CompoundAssignOperator') and nd.opcode and nd.opcode.endswith('=') and nd.opcode not in ('==', '!=', '<=', '>=') and nd.inner:
+        return nd.inner[0].strip()
+    if nd.kind == 'UnaryOperator' and nd.opcode in ('++', '--', '&') and nd.inner:
+        return nd.inner[0].strip()
+    return None
+
+
+def _context_scalars(u):
+    """integer objects defined at file scope in this unit that some function writes: parser context kept outside the token stream.
+    Returns ({name: set(writer functions)}, {name: set(reader functions)})"""
+    cand = {}
+    for n_, g in u.globals.items():
+        if g.d.get('storageClass') == 'extern':
+            continue
+        t = (g.dtype or g.type or '').replace('volatile ', '').strip()
+        if t in _INT_TYPES or t.startswith('enum '):
+            cand[g.id] = n_
+    writers, readers = {}, {}
+    for fname, fd in u.functions.items():
+        stores = set()
+        for nd in fd.walk():
+            lv = _lvalue_of_write(nd)
+            if lv is not None and lv.kind == 'DeclRefExpr' and lv.ref_id in cand:
+                writers.setdefault(cand[lv.ref_id], set()).add(fname)
+                if nd.opcode == '=':
+                    stores.add(id(lv))
+        for nd in fd.walk():
+            if nd.kind == 'DeclRefExpr' and nd.ref_id in cand and id(nd) not in stores:
+                readers.setdefault(cand[nd.ref_id], set()).add(fname)
+    return writers, readers
+
+
+def r156_static_context(pe, rep, keep):
+    """postfix() decides the storage duration of a compound literal by parser context kept in file-scope flags.  The compound-literal rule is
+    evaluated in the context gvar_initializer() really establishes for the parse of the initialiser (not in a context assumed by name), and the
+    context is a region: it holds for the whole parse of the initialiser -- gvar_initializer() is re-entered from inside its own region (a compound
+    literal in the initialiser) and that inner activation must hand the region back as it found it -- and it ends with the initialiser.
+    Returns the context states for r156_compound_literal"""
+    u = pe.u
+    ag = Agg(rep, 'R15.6', PU, 'gvar_initializer')
+    fline = u.fn('gvar_initializer').line
+    writers, readers = _context_scalars(u)
+    names = sorted(writers)
+    probe = pe.interp(('gvar_initializer',), opaque=('write_gvar_data',))
+    s0 = {}
+    for v in names:
+        x = _final(probe, _initial_global(probe, pe.P, v))
+        if not isinstance(x, int):
+            raise AnalysisBroken('initial value of the context flag %s is not concrete: %r' % (v, x))
+        s0[v] = x
+    # call graph of the unit; R = functions from which a reader of a context flag is reachable
+    calls = {f: {n_.ref_name for n_ in fd.walk() if n_.kind == 'DeclRefExpr' and n_.ref_kind == 'FunctionDecl' and n_.ref_name in u.functions} for f, fd in u.functions.items()}
+
+    def reach(srcs):
+        seen, todo = set(srcs), list(srcs)
+        while todo:
+            for g in calls.get(todo.pop(), ()):
+                if g not in seen:
+                    seen.add(g); todo.append(g)
+        return seen
+    read_by = set()
+    for v in names:
+        read_by |= readers.get(v, set())
+    R = {f for f in u.functions if reach([f]) & read_by}
+    # private helpers of gvar_initializer are evaluated with it (also one that does the parse on its behalf); a function that reads the context is not a helper
+    pure_readers = read_by - set().union(*writers.values()) - {'gvar_initializer'} if names else set()
+    inl = pe.inlined(('gvar_initializer',), pure_readers | {'write_gvar_data'})
+    R -= inl
+    region_callees = sorted({g for f in inl for g in calls.get(f, ()) if g in R})
+    local_writers = sorted(v for v in names if writers[v] & inl)
+
+    def snap(it, ctx):
+        return {v: _final(it, ctx.globals[v]) if v in ctx.globals else ctx.c15_state[v] for v in names}
+
+    def h_region(it, ctx, nd, args):
+        ctx.emit('region', nd.callee(), snap(it, ctx), nd.line)
+        return it.lazy_value(nd.dtype or nd.type or 'void *', ctx.fresh('parsed'))
+    it = pe.interp(('gvar_initializer',), opaque=('write_gvar_data',) + tuple(sorted(pure_readers - set(region_callees))), cut={f: h_region for f in region_callees},
+                   globals_={v: (lambda ctx, v=v: ctx.c15_state[v]) for v in names})
+    reentrant = 'gvar_initializer' in reach(region_callees)
+    result = {'initial': s0, 'regions': []}
+    if not region_callees:
+        ag.undecided('static-context/evaluation', 'gvar_initializer() calls no function that parses an initialiser (none of its callees reaches a reader of the parser context %s): '
+                     'where the initialiser of a static object is parsed is not recognised' % names, fline)
+        result['skip-static-initialiser'] = True
+        ag.flush(fline)
+        return result
+    if names and not local_writers:
+        # the flags exist and are written, but not here: the region is established by somebody else (refactoring), outside this evaluation
+        ag.undecided('static-context/evaluation', 'the parser context %s is written by %s and not by gvar_initializer(): which context holds while the initialiser of a static '
+                     'object is parsed is not recognised' % (names, sorted(set().union(*[writers[v] for v in names]))), fline)
+        result['skip-static-initialiser'] = True
+        ag.flush(fline)
+        return result
+    shared = {v: sorted(writers[v] - inl) for v in local_writers if writers[v] - inl}
+    if shared:
+        ag.undecided('static-context/evaluation', 'the parser context gvar_initializer() establishes is also written by other functions (%s): whether it still holds at every compound literal '
+                     'of the initialiser is not decided by evaluating gvar_initializer() alone' % '; '.join('%s: %s' % (v, ', '.join(fs)) for v, fs in sorted(shared.items())), fline)
+    done, todo, level, nexp = [], [s0], 0, 0
+    while todo and level < MAX_CONTEXT_LEVELS:
+        nxt = []
+        for entry in todo:
+            done.append(entry)
+            tag = 'outermost' if level == 0 else 'nested'
+
+            def mk(ctx, entry=entry):
+                ctx.c15_state = dict(entry)
+                v = Obj('Obj', lazy=True, label='var')
+                ty = Obj('Type', lazy=True, label='ty')
+                ty.fields['size'] = Sym('ty.size', 'int')
+                v.fields['ty'] = ty
+                return [Sym('rest', 'Token **'), Obj('Token', lazy=True, label='tok'), v]
+            res = _explore(it, 'gvar_initializer', mk)
+            rets = [(c, o) for c, o in res if o[0] == 'ret']
+            if not rets:
+                ag.undecided('static-context/evaluation', 'gvar_initializer has no returning path (parser context on entry: %s)' % _state_doc(entry), fline)
+                continue
+            for ctx, out in rets:
+                nexp += 1
+                regs = [e for e in ctx.events if e[0] == 'region']
+                end = snap(it, ctx)
+                facts = {'parser context on entry': dict(entry), 'while the initialiser is parsed': [dict(e[2], call=e[1]) for e in regs], 'on return': dict(end), 'path': ctx.trail[-4:]}
+                bad = [v for st in [e[2] for e in regs] + [end] for v in names if not isinstance(st[v], int)]
+                if bad or not regs:
+                    ag.undecided('static-context/evaluation', ('the value of %s is not concrete' % sorted(set(bad))) if bad else 'a returning path of gvar_initializer() parses no initialiser', fline)
+                    continue
+                ch = ['%s: %r on entry, %r on return' % (v, entry[v], end[v]) for v in names if end[v] != entry[v]]
+                if level == 0:
+                    ag.note('static-context/ends-with-the-initialiser', not ch,
+                            'after gvar_initializer() has returned to a caller outside any static initialiser the parser context is changed (%s): postfix() reads it, so a compound literal '
+                            'in a function body that follows the declaration is no longer judged in the context of that body (automatic object, C11 6.5.2.5p5)' % '; '.join(ch), fline, facts)
+                else:
+                    ag.note('static-context/nested-initialiser-hands-the-region-back', not ch,
+                            'gvar_initializer() is re-entered while the initialiser of a static object is being parsed (a compound literal in that initialiser: %s -> ... -> postfix -> gvar_initializer) '
+                            'and returns with the parser context changed (%s): the rest of the outer initialiser is parsed as if it were not the initialiser of a static object -- every '
+                            'later compound literal in it becomes an automatic object of the enclosing function, and the static object is initialised with the address of a stack slot '
+                            '(relocation against an empty symbol); the context must be restored to what it was on entry, not reset' % ('/'.join(region_callees), '; '.join(ch)), fline, facts)
+                for e in regs:
+                    st = {v: e[2][v] for v in names}
+                    w = 'static-initialiser' if level == 0 else 'nested-static-initialiser'
+                    if (w, st) not in result['regions'] and not (level > 0 and ('static-initialiser', st) in result['regions']):
+                        result['regions'].append((w, st))
+                    if reentrant and st not in done and st not in nxt:
+                        nxt.append(st)
+        todo = nxt
+        level += 1
+    if nexp == 0:
+        raise AnalysisBroken('gvar_initializer: static-context: nothing explored')
+    if names and not reentrant:
+        ag.undecided('static-context/nested-initialiser-hands-the-region-back', 'gvar_initializer() is not reachable from the calls it makes to have the initialiser parsed (%s): '
+                     'the compound-literal arm of postfix() is verified to call it, so the call graph of parse.c is not understood' % region_callees, fline)
+    ag.flush(fline)
+    return result
 
 
 def r156_gvar_initializer(pe, rep, keep):
@@ -2109,7 +2296,7 @@ def run(P, rep, tier):
     rep.explanation = ('Decision tables of the symbol-emission code, obtained by abstract interpretation (Engine I) of chibicc\'s own source on complete finite input '
                        'domains and compared with oracle tables: emit_data / emit_text / gen_addr(ND_VAR) for every combination of the linkage and storage flags of an Obj '
                        'and of -fcommon / -fPIC (emitted directives are parsed and the address left in %rax is evaluated symbolically); function(), primary(), '
-                       'global_variable(), declaration(), postfix() (compound literals), gvar_initializer() for every combination of declaration attributes (a parser-built state outside the emit_data table is run through emit_data; function(): also for every state an earlier declaration can have left, '
+                       'global_variable(), declaration(), postfix() (compound literals, in the parser-context states gvar_initializer() is evaluated to establish on first and on nested entry), gvar_initializer() for every combination of declaration attributes (a parser-built state outside the emit_data table is run through emit_data; function(): also for every state an earlier declaration can have left, '
                        'judging that a redeclaration keeps the linkage of the first declaration, and find_func on scope chains of depth 1-3 for every flag combination of the bound function); mark_live on all reference graphs over three functions; '
                        'scan_globals on all lists of up to three file-scope objects over two names; parse_args / run_linker on concrete option vectors. '
                        'Not decided: link results, run-time equivalence of the configurations, initialiser bytes (C05), prologue/epilogue (C06), the one redeclaration case the Obj flags '
@@ -2118,7 +2305,9 @@ def run(P, rep, tier):
                         'one declarator per declaration in global_variable()/declaration(); a definition has `{` where a prototype has `;`',
                         'gas semantics: a symbol is local unless .globl; .comm is global unless preceded by .local; .L names stay out of the symbol table',
                         'psABI 3.1.2 array alignment, ELF TLS ABI (general-dynamic 16-byte pattern, local-exec), crt start-file order of the GNU toolchain',
-                        'lists are analysed with the object under test followed by one plain definition (continuation), graphs with three functions (bounded-exhaustive)']
+                        'lists are analysed with the object under test followed by one plain definition (continuation), graphs with three functions (bounded-exhaustive)',
+                        'parser context of static initialisers: integer file-scope objects of parse.c; nesting of gvar_initializer() evaluated to depth %d; between the calls it makes, '
+                        'only gvar_initializer() and its private helpers change that context while an initialiser is parsed (every other writer makes the rule undecided)' % MAX_CONTEXT_LEVELS]
     cg = CG(P)
     envs = {}
 
